@@ -60,6 +60,10 @@ type Proc struct {
 	// MaxOpenFiles > 0: the process runs under that descriptor limit (`ulimit -n`, a resource fault:
 	// descriptors that are not released promptly run out)
 	MaxOpenFiles int `json:"max_open_files,omitempty"`
+	// Parallel: the process runs with GOMAXPROCS=8 instead of 1. The unchanged tree starts no goroutine
+	// on any claimed path, so this changes nothing there; a tree that has acquired concurrency of its
+	// own meets real parallelism (see the unstable-violation policy)
+	Parallel bool `json:"parallel,omitempty"`
 }
 
 type Record struct {
@@ -148,6 +152,9 @@ func (e *Env) RunProc(p *Proc, workDir string, timeout time.Duration, st *Stats,
 	}
 	if gomaxprocs <= 0 {
 		gomaxprocs = 1
+	}
+	if p.Parallel && gomaxprocs < 8 {
+		gomaxprocs = 8
 	}
 	cmd.Env = append(os.Environ(), fmt.Sprintf("GOMAXPROCS=%d", gomaxprocs), "GOTRACEBACK=single")
 	if p.TZ != "" {
